@@ -144,7 +144,7 @@ def check(cx):
     guarded(rep, 'scan', inst, flin, go)
 
     # helper functions, when they exist, are checked on their own as well (same identities)
-    fseg = find(cx, 'linear::segment')
+    fseg = helper_by_role(cx.facts, flin, ['poly::Knot', 'poly::Knot'], ('piecewise::Segment', 'poly::Poly1'), 'linear::segment')
     if fseg is not None and fseg['body']['arg_count'] == 2:
         sinst = fseg['path']
         sfile, sline = fn_loc(fseg)
